@@ -256,7 +256,7 @@ def count_obligations(files):
     return names, bad
 
 
-def proof_obligations(prop, extra_targets=()):
+def proof_obligations(prop, extra_targets=(), extra_props=()):
     """Build Props/<prop>.vo (forcing the Props file itself to recompile so that its
     Print Assumptions output is in the log). Returns a dict describing the proof side."""
     props_v = "Props/%s.v" % prop
@@ -267,6 +267,17 @@ def proof_obligations(prop, extra_targets=()):
         return res
     coq_refresh_project()
     files = [f for f in coq_deps(props_v)]
+    for ep in extra_props:  # further theorem files checked together with this property (e.g. Props/Links.v)
+        if os.path.exists(os.path.join(COQ, ep)):
+            for f in coq_deps(ep):
+                if f not in files:
+                    files.append(f)
+            evo = os.path.join(COQ, ep + "o")
+            if os.path.exists(evo):
+                os.remove(evo)
+            extra_targets = list(extra_targets) + [ep + "o"]
+        else:
+            res["broken"].append("missing " + ep)
     res["files"] = files
     names, bad = count_obligations([f for f in files if not f.startswith("Gen/")])
     res["obligations"] = len(names)
@@ -438,8 +449,8 @@ class Check:
         self.seen_keys = set()
 
     # -- proof side
-    def proofs(self, extra_targets=()):
-        p = proof_obligations(self.prop, extra_targets)
+    def proofs(self, extra_targets=(), extra_props=()):
+        p = proof_obligations(self.prop, extra_targets, extra_props)
         c = self.coverage
         c["obligations"], c["discharged"] = p["obligations"], p["discharged"]
         c["print_assumptions_closed"] = p["closed"]
